@@ -10,6 +10,10 @@ import "math"
 
 const LossEps = 1e-12
 
+// EqTolerance is the library's absolute equality tolerance (C03): values closer
+// than this are "equal" for Eq/Ne/Equals, and therefore ties for ElMax/ElMin.
+const EqTolerance = 1e-240
+
 func IsComposite(k string) bool {
 	switch k {
 	case "Relu", "LeakyRelu", "Sigmoid", "TanhAct", "Softmax", "MSE", "BCE", "CE", "FC":
@@ -163,12 +167,14 @@ func compositeVJP(op Op, in []*T, out *T, gy *T) []*T {
 		g := New(x.Shape)
 		for i, v := range x.V {
 			switch {
-			case v > 0:
+			case v > EqTolerance:
 				g.V[i] = gy.V[i]
-			case v < 0:
+			case v < -EqTolerance:
 				g.V[i] = m * gy.V[i]
 			default:
-				// at exactly 0: a value between the one-sided derivatives;
+				// at exactly 0 (and within the library's absolute equality
+				// tolerance of 0, where its comparisons cannot tell the sides
+				// apart): a value between the one-sided derivatives;
 				// Tie[i] in [0,1] interpolates from m (0) to 1 (1); default 1/2
 				lam := 0.5
 				if op.Tie != nil {
